@@ -222,6 +222,9 @@ async fn server(mut rx: rch::base::Receiver<CountReq>) {
 "##
 )]
 
+#[cfg(remoc_verif)]
+pub mod verif;
+
 pub mod prelude;
 
 #[doc(hidden)]
